@@ -427,7 +427,9 @@ def _create_np_array_for_byte_representation(tensor: Tensor) -> np.ndarray:
         array = _type_casting.pack_2bitx4(array)
     else:
         assert tensor.dtype.itemsize == array.itemsize, "Bug: The itemsize should match"
-    if not _IS_LITTLE_ENDIAN:
+    if array.dtype.byteorder == ">" or (array.dtype.byteorder == "=" and not _IS_LITTLE_ENDIAN):
+        # The dtype of a numpy array is checked at construction, but the data behind other
+        # array-compatible objects may carry an explicit big-endian dtype
         array = array.astype(array.dtype.newbyteorder("<"))
     return array
 
